@@ -317,6 +317,7 @@ func c16(r *rep.Run) {
 				}
 			}
 			for _, name := range names {
+				r.Note(w, p.Src+" pricing "+name)
 				for _, cx := range contexts {
 					if _, clash := cx[name]; clash {
 						continue
